@@ -221,7 +221,8 @@ NOTES = {
     'C04': 'Harnesses: `step` (one `OP_MERKLEVAL`), `tree` (every binary shape), `builder` (prioritized / balanced), `graft` (a used tree '
            'grafted into a larger one), `pack`.',
     'C05': 'Harnesses: `root` (root = P + clamp(sha256(P‖sha256(S)))·G at integer level), `step` (`OP_TAPROOT` from an arbitrary witness state: '
-           'script path and key path exact; the flagged key path also for single permission bits), `keyspend` / `scriptspend` builders, '
+           'script path and key path exact; the flagged key path also for single permission bits; the script path also with operand bytes that '
+           'would be harmful as opcodes if the instruction did not consume its operand), `keyspend` / `scriptspend` builders, '
            '`nonnative` (native and non-native lock agree on verdict and evaluated scripts).',
     'C06': 'Harnesses: `step` (43 instructions against the reference in `checks/c06.py`), `float`, `control` (constructs with summarised '
            'bodies), `dispatch` (opcode byte → instruction numbered in `docs.md`). Two documentation inconsistencies were met and resolved '
@@ -250,15 +251,16 @@ NOTES = {
            'set, so that every length field sees values on both sides of 2^7 / 2^15 / 2^16), `roundtrip` (per opcode with symbolic operands). '
            'A monitor on `Tape.read` turns a negative read size into an obligation ("never reads backwards").',
     'C13': 'Harnesses: `complete` (builder witness unlocks builder lock iff the flag is permitted), `exact_single`, `exact_scripthash`, '
-           '`exact_graftroot` (locks from arbitrary witness states), `multisig_lock`, `multisig_builder`.',
+           '`exact_graftroot` (locks from arbitrary witness states; flagged shapes against every single permission bit), `multisig_lock`, '
+           '`multisig_builder`.',
     'C14': 'Harnesses: `certificate`, `lock` (single delegation lock), `chain` (reference fold over certificates), `builders`.',
-    'C15': 'Harnesses: `htlc_exact` (both layouts, both hashes), `ptlc_exact`, `builders`; the tweaked PTLC is under C17.',
+    'C15': 'Harnesses: `htlc_exact` (both layouts, both hashes), `ptlc_exact`, `builders` (SHAKE digests of 1, 15, 16, 20, 32 bytes); the tweaked PTLC is under C17.',
     'C16': 'Harnesses: `check_timestamp`, `check_timestamp_errors`, `check_epoch`, `lock` (three builders end to end).',
-    'C17': 'Harnesses: `public` (check / sa_altered / decrypt / check_sig / recover, one identity per job), `private`, `builders`, '
+    'C17': 'Harnesses: `public` (check / sa_altered / decrypt / check_sig / recover, one identity per job), `private`, `builders` (both builder variants, sigflags 00 and 01; prv and pub builders must agree), '
            '`tweak_validity` (a verdict / an adapter only for a valid tweak point), `ptlc_tweak`. The negative clauses "the adapter itself '
            'is not a valid signature" need hash independence beyond the generic-group model and were dropped from the claim (solver unknown); '
            'they are listed as outside.',
-    'C18': 'Harnesses: `amhl` (AMHL class, n ≤ 4 / 6), `wrong_hop`, `tools` (`setup_amhl` + adapter cascade), `tools_noseed` (empty seed).',
+    'C18': 'Harnesses: `amhl` (AMHL class, n ≤ 4 / 6), `wrong_hop`, `tools` (`setup_amhl` + adapter cascade), `tools_noseed` (empty seed), `tools_refunds` (partial refund maps: every hop gets the locks for its own key).',
     'C19': 'Harnesses: `onestep` (one registry operation from an arbitrary registry state), `history_plugins`, `history_contracts`, '
            '`independence` (compile / assemble / comptime / run results do not depend on an earlier call), `caller_dicts`. Plugins are plain '
            'functions, bound methods and value-equal callables.',
